@@ -41,11 +41,8 @@ def obligations(tier):
             obs.append((gk.ob_cliquishness, dict(name=f"C03|cliquishness4|n=7|node={i}", prop=PROP, order=4, n=7, nodes=[i]), 3000))
     for n in ((3, 4) if not th else (3, 4, 5)):
         obs.append((gk.ob_newman_chunks, dict(name=f"C03|_mpi_newman_betweenness|defining-sum|n={n}", prop=PROP, n=n, nsi=False), 1200))
-    for n in ((3, 4) if not th else (3, 4, 5)):
+    for n in (3, 4):          # n = 5 was tried in the thorough tier: rational functions of five weights, z3 unknown after 300-1800 s per group
         graphs = list(gk.all_graphs(n))
-        if n == 5:
-            import random
-            graphs = random.Random(core.SEED + 3).sample(graphs, 96)
         step = 8
         for ci in range(0, len(graphs), step):
             obs.append((gk.ob_nsi_betw_definition, dict(name=f"C03|_nsi_betweenness|definition|n={n}|graphs#{ci // step}", prop=PROP, n=n,
